@@ -66,7 +66,12 @@ class PSer:
                       kt.ByteType: "CByte", kt.NumberType: "CNumber", kt.FloatType: "CFloat"}
         ctx = program.context
         self.classes = ctx.get_classes(("global",), glob=True)
-        self.sam_names = [name for name, d in self.classes.items() if tu.is_sam(ctx, cls_decl=d)]
+        # is_sam is evaluated on a COPY: ClassDeclaration.get_abstract_functions (reached from
+        # is_sam) reassigns the bound of type parameters that belong to the program
+        import pickle
+        shadow = pickle.loads(pickle.dumps(program)).context
+        self.sam_names = [name for name, d in shadow.get_classes(("global",), glob=True).items()
+                          if tu.is_sam(shadow, cls_decl=d)]
         for name, d in self.classes.items():
             if d.name != name:
                 raise SerError("class registered under another name: %s / %s" % (name, d.name))
